@@ -1093,9 +1093,10 @@ def snap_diff(exp: dict, got: dict, may: dict) -> T.Optional[T.Tuple[str, str]]:
     return None
 
 
-def order_kept(old: T.List[T.List[T.Any]], new: T.List[T.List[T.Any]]) -> bool:
-    """relative order of the keywords present in both lists"""
-    common = [a[0] for a in old if a[0] is not None and any(b[0] == a[0] for b in new)]
+def order_kept(old: T.List[T.List[T.Any]], new: T.List[T.List[T.Any]], freed: T.Collection[str] = ()) -> bool:
+    """relative order of the keywords present in both lists (freed: keywords the step deleted - one that is set again in the same
+    invocation is a new keyword, and where a new keyword goes is not specified)"""
+    common = [a[0] for a in old if a[0] is not None and a[0] not in freed and any(b[0] == a[0] for b in new)]
     seen = [b[0] for b in new if b[0] in common]
     return common == seen
 
@@ -1259,7 +1260,8 @@ class Judge:
                 for i, j, txt in reversed(runs):
                     ok = all(k in allowed.get(rel, ()) for k in range(i, j))
                     if i == j:
-                        ok = rel in appends and i == len(old)
+                        # appended text; blank statements that end the file cannot be told from the line break the tool appends
+                        ok = rel in appends and all(not x.strip() for x in old[i:])
                     elif not ok and is_rm and any(k in allowed.get(rel, ()) for k in range(i, j)):
                         # removing a statement may take the blank space around it along; the neighbours themselves must survive
                         keep = ''.join(old[k] for k in range(i, j) if k not in allowed.get(rel, ()))
@@ -1297,8 +1299,9 @@ class Judge:
                 sig = self.value_sig(step, d[0], touched_old)
                 return self.fail(sig, f'{what}: {d[1]}\n{self.show_diff(before_texts, after)}')
             # pre-existing keyword order of every call
+            freed = {k for c in step['cmds'] if c['type'] == 'kwargs' and c['operation'] == 'delete' for k in c.get('kwargs', {})}
             for a_old, a_new, label in self.arg_lists(snap, gsnap):
-                if not order_kept(a_old, a_new):
+                if not order_kept(a_old, a_new, freed):
                     return self.fail('reprint/arg-order', f'{what}: keyword order of {label} changed from {[a[0] for a in a_old]} to {[a[0] for a in a_new]}')
             # other variables / messages
             for k, v in before.env.items():
@@ -2268,6 +2271,8 @@ class TreeGen:
         """'all' literal scalars / list of literal scalars, 'list' = array literal with non-literal elements, 'no'"""
         def scalar(x: list) -> bool:
             return x[0] in ('str', 'bool', 'id') and (x[0] != 'str' or x[2] == 's')
+        if v[0] == 'id':
+            return 'id'       # a bare identifier: editable as an id-list value, "too complex" as a string-list value
         els = v[1] if v[0] == 'arr' else [v]
         if all(scalar(x) for x in els):
             # 'ids': identifiers among the elements (the tool compares element TEXT: a string value that an identifier contributes
@@ -2553,13 +2558,19 @@ class TreeGen:
                         if kw[key] is _NOVAL:
                             del kw[key]
                             continue
-                        kwlit[key] = 'ids' if table[key] == 'idlist' else 'all'
+                        kwlit[key] = ('ids' if isinstance(kw[key], list) else 'id') if table[key] == 'idlist' else 'all'
                         if op == 'delete':
                             kwlit.pop(key, None)
                 else:
                     lkeys = [x for x in sorted(table) if table[x] in LIST_TYPES and x != 'default_options']
-                    cand = [x for x in lkeys if kwlit.get(x, 'all') != 'no' and
-                            (op == 'add' or kwlit.get(x, 'all') == ('ids' if table[x] == 'idlist' and x in present else 'all'))]
+                    def editable(x: str) -> bool:
+                        shape = kwlit.get(x, 'all')
+                        if table[x] == 'idlist':
+                            return shape in (('all', 'ids', 'id', 'list') if op == 'add' else (('ids', 'id') if x in present else ('all',)))
+                        if shape == 'id' and x in present:
+                            self.excl['kwargs add/remove on a string-list keyword whose value is a bare identifier (the rewriter skips it: "too complex")'] += 1
+                        return shape in (('all', 'ids', 'list') if op == 'add' else ('all',))
+                    cand = [x for x in lkeys if editable(x)]
                     if not cand:
                         return
                     key = self.pick([x for x in cand if x in present] or cand)
@@ -2569,8 +2580,8 @@ class TreeGen:
                         if v is _NOVAL:
                             return
                         kw[key] = v
-                        if kwlit.get(key, 'all') in ('all', 'ids'):
-                            kwlit[key] = 'ids' if table[key] == 'idlist' else kwlit.get(key, 'all')
+                        if table[key] == 'idlist' and kwlit.get(key, 'all') in ('all', 'ids', 'id'):
+                            kwlit[key] = 'ids'
                     elif op == 'remove':
                         if table[key] == 'idlist':
                             names = [n for n, val in env.items() if val in curv]
